@@ -2393,3 +2393,106 @@ fn extract_group(filter: &str) -> Option<(String, String)> {
 // //         dbg!(trackers);
 // //     }
 // // }
+
+/// Single-threaded stepping and a read-only projection of the routing state
+#[cfg(rumqtt_verif)]
+impl Router {
+    pub fn verif_link(&self) -> Sender<(ConnectionId, Event)> {
+        self.link()
+    }
+
+    /// Handles one queued event, if there is one
+    pub fn verif_step_event(&mut self) -> bool {
+        match self.router_rx.try_recv() {
+            Ok((id, data)) => {
+                self.events(id, data);
+                true
+            }
+            Err(_) => false,
+        }
+    }
+
+    /// One `consume()` turn; false when the ready queue was empty
+    pub fn verif_consume(&mut self) -> bool {
+        self.consume().is_some()
+    }
+
+    /// One iteration of the real router loop, provided it would not block
+    pub fn verif_run_inner(&mut self) -> bool {
+        if self.scheduler.readyqueue.is_empty() && self.router_rx.is_empty() {
+            return false;
+        }
+        self.run_inner().is_ok()
+    }
+
+    pub fn verif_pending_events(&self) -> usize {
+        self.router_rx.len()
+    }
+
+    pub fn verif_ready_len(&self) -> usize {
+        self.scheduler.readyqueue.len()
+    }
+
+    pub fn verif_snapshot(&self) -> serde_json::Value {
+        let mut conns = serde_json::Map::new();
+        for (id, connection) in self.connections.iter() {
+            let mut subs: Vec<_> = connection.subscriptions.iter().cloned().collect();
+            subs.sort();
+            let tracker = self.scheduler.trackers.get(id);
+            let mut v = serde_json::json!({
+                "cid": connection.client_id,
+                "clean": connection.clean,
+                "subs": subs,
+                "status": tracker.map(|t| format!("{:?}", t.status)),
+                "reqs": tracker.map(|t| t.data_requests.iter().map(super::verif_request).collect::<Vec<_>>()),
+                "ibuf": self.ibufs.get(id).map(|i| i.buffer.lock().len()),
+            });
+            let m = v.as_object_mut().unwrap();
+            if let Some(o) = self.obufs.get(id) {
+                m.extend(o.verif_snapshot().as_object().unwrap().clone());
+            }
+            if let Some(a) = self.ackslog.get(id) {
+                m.extend(a.verif_snapshot().as_object().unwrap().clone());
+            }
+            conns.insert(id.to_string(), v);
+        }
+        let mut conn_map: Vec<_> = self.connection_map.iter().map(|(k, v)| (k.clone(), *v)).collect();
+        conn_map.sort();
+        let mut sub_map: Vec<_> = self
+            .subscription_map
+            .iter()
+            .map(|(k, v)| {
+                let mut ids: Vec<_> = v.iter().copied().collect();
+                ids.sort();
+                (k.clone(), ids)
+            })
+            .collect();
+        sub_map.sort();
+        let mut groups = serde_json::Map::new();
+        for (name, group) in self.shared_subscriptions.iter() {
+            groups.insert(name.clone(), group.verif_snapshot());
+        }
+        let mut wills: Vec<_> = self.last_wills.keys().cloned().collect();
+        wills.sort();
+        let slabs = [
+            self.connections.len(),
+            self.ibufs.len(),
+            self.obufs.len(),
+            self.ackslog.len(),
+            self.scheduler.trackers.len(),
+        ];
+        serde_json::json!({
+            "conns": conns,
+            "readyq": self.scheduler.readyqueue.iter().collect::<Vec<_>>(),
+            "datalog": self.datalog.verif_snapshot(),
+            "conn_map": conn_map,
+            "sub_map": sub_map,
+            "groups": groups,
+            "wills": wills,
+            "grave": self.graveyard.verif_snapshot(),
+            "notifs": self.notifications.len(),
+            "chan": self.router_rx.len(),
+            "slabs": slabs,
+        })
+    }
+}
